@@ -41,12 +41,12 @@ RULE = (
 EXHAUSTIVE = {"quick": True, "thorough": True}
 EXHAUSTIVE_PART = "workload B: all failure points of each listed layout (quick 2 layouts, thorough 12); thorough: all restart points of each layout"
 TOLERANCES = {"recomputed_rel": 1e-9}
-FLOORS = {"quick": {"A.load-vs-model": 100, "A.listing": 15, "A.history": 30, "A.history-by-location": 15, "A.merge": 15, "A.split": 12, "A.split.first-listed-not-earliest-cycle": 2, "A.history.selection-none": 3, "A.history.selection-all-by-default": 5, "A.rewrite-refused": 15, "A.identity.fresh-object": 8, "A.history.step-before-object-existed": 2,
+FLOORS = {"quick": {"A.load-vs-model": 100, "A.listing": 15, "A.history": 30, "A.history-by-location": 15, "A.merge": 15, "A.split": 12, "A.split.first-listed-not-earliest-cycle": 2, "B.run.tight-coupling-with-skipped-cycles": 12, "A.history.selection-none": 3, "A.history.selection-all-by-default": 5, "A.rewrite-refused": 15, "A.identity.fresh-object": 8, "A.history.step-before-object-existed": 2,
                     "A.history-by-location.below-assembly-level": 8, "A.history.unset-value-expected": 100, "A.history.never-assigned-parameter": 50, "A.twin-load-at-write": 50,
                     "A.write-context-exit.exception": 12, "A.write-context-exit.clean": 12,
                     "B.run-with-failure": 40, "B.run-complete": 1, "B.snapshot-compared": 100, "hook:Database.writeToDB": 200,
                     "B.restart-complete": 1, "B.restart-with-failure": 1, "B.restart.merged-group-compared": 6, "hook:DatabaseInterface.prepRestartRun": 2},
-          "thorough": {"A.load-vs-model": 1500, "A.listing": 200, "A.history": 400, "A.history-by-location": 200, "A.merge": 200, "A.split": 150, "A.split.first-listed-not-earliest-cycle": 15, "A.history.selection-none": 30, "A.history.selection-all-by-default": 50, "A.rewrite-refused": 200, "A.identity.fresh-object": 120, "A.history.step-before-object-existed": 30,
+          "thorough": {"A.load-vs-model": 1500, "A.listing": 200, "A.history": 400, "A.history-by-location": 200, "A.merge": 200, "A.split": 150, "A.split.first-listed-not-earliest-cycle": 15, "B.run.tight-coupling-with-skipped-cycles": 40, "A.history.selection-none": 30, "A.history.selection-all-by-default": 50, "A.rewrite-refused": 200, "A.identity.fresh-object": 120, "A.history.step-before-object-existed": 30,
                        "A.history-by-location.below-assembly-level": 100, "A.history.unset-value-expected": 1000, "A.history.never-assigned-parameter": 500, "A.twin-load-at-write": 600,
                        "A.write-context-exit.exception": 160, "A.write-context-exit.clean": 160,
                        "B.run-with-failure": 250, "B.run-complete": 6, "B.snapshot-compared": 1200, "hook:Database.writeToDB": 3000,
@@ -65,7 +65,7 @@ def failure_points(ncyc, bsteps, coupled):
         pts += [("BOC", pos, c) for pos in ("pre", "post")]
         for n in range(bsteps + 1):
             pts += [("EveryNode", pos, c, n) for pos in ("pre", "post")]
-            if coupled and not (isinstance(coupled, tuple) and c in coupled):
+            if coupled and not (isinstance(coupled, (tuple, list)) and c in coupled):
                 pts += [("Coupled", pos, c, n) for pos in ("pre", "post")]
         pts += [("EOC", pos, c) for pos in ("pre", "post")]
     pts += [("EOL", pos) for pos in ("pre", "post")]
@@ -683,7 +683,7 @@ def expected_groups(ncyc, bsteps, coupled, point):
         events.append(("BOC", c))
         for n in range(bsteps + 1):
             events.append(("EveryNode", c, n))
-            if coupled and not (isinstance(coupled, tuple) and c in coupled):
+            if coupled and not (isinstance(coupled, (tuple, list)) and c in coupled):
                 events.append(("Coupled", c, n))
             events.append(("WRITE-AFTER-NODE", c, n))
         events.append(("EOC", c))
@@ -721,7 +721,7 @@ def run_once(H, lay, point, title, restart=None):
            "tightCoupling": coupled, "cycleLength": 100.0}
     if restart:
         new.update({"reloadDBName": os.path.abspath(restart[0]), "startCycle": restart[1], "startNode": restart[2], "loadStyle": "fromDB"})
-    if isinstance(coupled, tuple):
+    if isinstance(coupled, (tuple, list)):
         new["tightCoupling"] = True
         new["cyclesSkipTightCouplingInteraction"] = list(coupled)
     cs = H.base.modified(newSettings=new)
@@ -753,6 +753,8 @@ def crash_case(rec, H, lay, point):
     H.n += 1
     title = "crash%d" % H.n
     w = {"layout": {"cycles": ncyc, "burnSteps": bsteps, "tightCoupling": coupled}, "failure": point}
+    if isinstance(coupled, (tuple, list)):
+        rec.hit("B.run.tight-coupling-with-skipped-cycles")
     try:
         aborted, writes = run_once(H, lay, point, title)
     except Exception as e:
